@@ -121,23 +121,24 @@ theorem open_cycle_is_error (fs : FS) (name : Bytes)
   openAux_endless _ name h
 
 /-- View = extraction, for archives in which links are only leaves.
-    `extract ms = some t` says (Model/TarFSExtract.lean): `ms` holds directory,
-    regular-file, symbolic-link and special-file members (no hard links); no
-    member has a regular file, link or special file in its directory path; a
-    regular file repeats only a regular file's name, and links and special
-    files have new names; `t` is then the tree a sequential extraction into an
+    `extract ms = some t` says (Model/TarFSExtract.lean): no member has a
+    regular file, link or special file in its directory path; a regular file
+    repeats only a regular file's name; links and special files have new
+    names; a hard link names a regular file that is already there; `t` is then the tree a sequential extraction into an
     empty root creates (implied parents made, a later file replaces the
     content of an earlier one, a directory member over an existing name
     changes nothing). For every such archive — any member order, any names —
     New succeeds and for every name `k` the view has a key `k` exactly when
     the extraction created `k`: a directory inode for a directory, a regular
     inode whose segment holds the bytes of the last occurrence for a file, a
-    symbolic-link inode with the normalised target for a link. Moreover the
+    link inode with the normalised target for a symbolic or hard link (what
+    reading a hard link yields is `hardlink_reads_target`). Moreover the
     view is tree-consistent (`TreeOK`: the lookup table and the children
     tables describe the same tree).
 
-    Partial: archives with hard links, with members placed through a symbolic
-    link, or with a file written through a link are not covered by this
+    Partial: archives with members placed through a symbolic link, with a
+    file written through a link, or with hard links that precede or miss
+    their target are not covered by this
     theorem (the correspondence run and the extraction oracle of the harness
     cover them; see the findings for what fails there). -/
 theorem view_eq_extract_partial (ms : List Member) (t : XTree) (hx : extract ms = some t) :
@@ -147,6 +148,7 @@ theorem view_eq_extract_partial (ms : List Member) (t : XTree) (hx : extract ms 
         | some .dir => ∃ i, fs.get? k = some i ∧ (fs.ino i).kind = .dir
         | some (.file d) => ∃ i, fs.get? k = some i ∧ (fs.ino i).kind = .reg ∧ (fs.ino i).data = some d
         | some (.sym tgt) => ∃ i, fs.get? k = some i ∧ (fs.ino i).kind = .sym ∧ (fs.ino i).link = tgt
+        | some (.hard tgt) => ∃ i, fs.get? k = some i ∧ (fs.ino i).kind = .link ∧ (fs.ino i).link = tgt
         | some .special => ∃ i, fs.get? k = some i ∧ (fs.ino i).kind = .special := by
   obtain ⟨fs, hnew, hT, hR⟩ := newFS_plain ms t hx
   refine ⟨fs, hnew, hT, fun k => ?_⟩
@@ -159,6 +161,7 @@ theorem view_eq_extract_partial (ms : List Member) (t : XTree) (hx : extract ms 
     | dir => exact node?_dir this
     | file d => exact node?_file hT this
     | sym tgt => exact node?_sym this
+    | hard tgt => exact node?_hard this
     | special => exact node?_special this
 
 /-- In the reference, a regular-file member determines the content of its
@@ -208,8 +211,25 @@ theorem view_open (fs : FS) (h : TreeOK [] fs) (p : Bytes) (hp : validPath p = t
         | .reg, none => .err .other
         | .special, _ => .err .exist
         | .sym, _ => openAux fs fs.inodes.length (fs.ino i).link
-        | .link, _ => openFS fs p :=
+        | .link, _ =>
+          match linkChain fs fs.inodes.length (getInode fs (fs.ino i).link) with
+          | .error e => .err e
+          | .ok t =>
+            match (fs.ino t).data with
+            | some d => .file (fs.info i) d
+            | none => .err .other :=
   h.open hp hns
+
+/-- Hard links resolve as inside the root: opening a hard link whose target
+    name is the key of a regular file yields that file's bytes (under the
+    link's own header). -/
+theorem hardlink_reads_target (fs : FS) (h : TreeOK [] fs) (p : Bytes) (i j : Nat) (d : Bytes)
+    (hp : validPath p = true) (hns : NoLinkOnPath fs p)
+    (hi : fs.get? p = some i) (hk : (fs.ino i).kind = .link)
+    (hns' : NoLinkOnPath fs (fs.ino i).link)
+    (hj : fs.get? (fs.ino i).link = some j) (hjk : (fs.ino j).kind = .reg) (hd : (fs.ino j).data = some d) :
+    openFS fs p = .file (fs.info i) d :=
+  h.open_hardlink hp hns hi hk hns' hj hjk hd
 
 theorem view_readdir (fs : FS) (h : TreeOK [] fs) (p : Bytes) (hp : validPath p = true)
     (hns : NoLinkOnPath fs p) :
